@@ -12,6 +12,7 @@ invariant of the parsing engine), C17's `parser_total_all_tokens`.
 import Lemmas.OutcomeX
 import Props.C18.Graphs
 import Props.C17.Argparse
+import Props.C18.EndToEnd
 namespace Cnfgen.C18
 open Cnfgen Cnfgen.Cli Cnfgen.Gen Cnfgen.GCli Cnfgen.GRand Cnfgen.Cli.AP
 
@@ -241,5 +242,394 @@ example : (specNamed "php").bind (fun s => cliOutcomeX {} detEnv ⟨1, 0, [[], [
     ["4", "3", "2"]) = some (.done .cliError) := by decide +kernel
 example : (specNamed "subsetcard").bind (fun s => cliOutcomeX {} detEnv ⟨1, 0, [[], []], []⟩ "cnfgen" (fun _ => 3) s
     ["complete", "2", "3", "--eq"]) = some (.done .ok) := by decide +kernel
+
+/-! ## ONE theorem for the formula sub-commands: `cli_never_escapes_all`
+
+For 30 of the 33 formula sub-commands of `cnfgen` / `pbgen`, whatever the graph environment, the random choices of the
+helper and the order of a graph file: the run (`cliOutcomeX`, CnfgenModel/Cli/OutcomeX.lean: CPython's argparse, the
+helper's method over the regenerated templates, the family models, `shield`) ends in the help exit, in a formula or in a
+command-line error.
+  * `op php subsetcard tseitin` and the inline `and or true false`: EVERY list of tokens;
+  * the 22 sub-commands with standard options (`end_to_end`, `end_to_end_graph` transported through C17's refinement
+    `extended_refines_fragment`; `stone` with its `--sparse` path and `vdw` proved here): every token list of the argparse fragment of Cli/Dispatch.lean (exact option strings).
+Excluded, and why (`excluded_formula_commands`): `dimacs` (reads a file: the outcome is that of the DIMACS reader, C06 /
+C14), `randkcnf` `randkxor` (random formulas: C13 / C07 — `Cli/Run.lean`).
+-/
+
+/-! ### the inline helpers: every list of tokens -/
+
+theorem inlineEnd_total (cls : String) (hcls : cls = "AND" ∨ cls = "OR" ∨ cls = "TRUE" ∨ cls = "FALSE") (ns : Ns)
+    (h : Answers (inlineBuild cls ns)) : EndsWell (inlineEnd cls ns) := by
+  unfold inlineEnd
+  rcases h with ⟨bt, hb⟩ | hb | hb
+  · rw [hb]
+    have : ∃ n cs, bt = .formula n cs := by
+      unfold inlineBuild at hb
+      rcases hcls with rfl | rfl | rfl | rfl
+      · simp only [beq_self_eq_true, if_true] at hb
+        split at hb <;> simp at hb
+        exact ⟨_, _, hb.symm⟩
+      · simp only [show ("OR" == "AND") = false by decide, Bool.false_eq_true, if_false, beq_self_eq_true,
+          if_true] at hb
+        split at hb <;> simp at hb
+        exact ⟨_, _, hb.symm⟩
+      · simp only [show ("TRUE" == "AND") = false by decide, show ("TRUE" == "OR") = false by decide,
+          Bool.false_eq_true, if_false, beq_self_eq_true, if_true] at hb
+        simp at hb
+        exact ⟨_, _, hb.symm⟩
+      · simp only [show ("FALSE" == "AND") = false by decide, show ("FALSE" == "OR") = false by decide,
+          show ("FALSE" == "TRUE") = false by decide, Bool.false_eq_true, if_false, beq_self_eq_true,
+          if_true] at hb
+        simp at hb
+        exact ⟨_, _, hb.symm⟩
+    obtain ⟨n, cs, rfl⟩ := this
+    exact Or.inr (Or.inl rfl)
+  · rw [hb]; exact Or.inr (Or.inr rfl)
+  · rw [hb]; exact Or.inl rfl
+
+/-- the inline helpers with a hand-written model of the formula they build -/
+def inlineCovered (s : CliSpec) : Bool :=
+  s.inline && (s.cls == "AND" || s.cls == "OR" || s.cls == "TRUE" || s.cls == "FALSE")
+
+theorem end_to_end_inline_all_tokens (re : RandEnv) (env : GraphEnv) (g : SimpleG) (tool : String)
+    (ord : List String → Nat) (s : CliSpec) (hs : s ∈ cliSpecs) (hc : inlineCovered s = true) (argv : List String) :
+    EndsWell (cliOutcomeX re env g tool ord s argv) := by
+  unfold inlineCovered at hc
+  simp only [Bool.and_eq_true, Bool.or_eq_true, beq_iff_eq] at hc
+  obtain ⟨hin, hcls⟩ := hc
+  have hsx : s.supportedX = true := by unfold CliSpec.supportedX; simp [hin]
+  have ht := C17.dispatch_total_all_tokens tool ord s hs (Or.inr hin) argv
+  unfold dispatchSpecX at ht
+  unfold cliOutcomeX
+  simp only [hsx, Bool.not_true, Bool.false_eq_true, if_false] at ht ⊢
+  split
+  · exact Or.inr (Or.inr rfl)
+  · rename_i htop
+    simp only [htop, Bool.false_eq_true, if_false] at ht
+    rcases C17.parser_total_all_tokens s hs hsx argv with ⟨b, hb⟩ | hb | hb
+    · rw [hb] at ht ⊢
+      simp only [hin, if_true] at ht ⊢
+      exact inlineEnd_total s.cls (by
+        rcases hcls with ((h | h) | h) | h
+        · exact Or.inl h
+        · exact Or.inr (Or.inl h)
+        · exact Or.inr (Or.inr (Or.inl h))
+        · exact Or.inr (Or.inr (Or.inr h))) _ ht
+    · rw [hb]; exact Or.inr (Or.inr rfl)
+    · rw [hb]; exact Or.inl rfl
+
+/-! ### standard options: transport from the fragment interpreter -/
+
+/-- on a token list of the fragment, the extended run of a sub-command with standard options ends well as soon as the
+path the helper takes raises a shielded exception or makes a call `evalCallX` answers on -/
+theorem standard_endsWell (re : RandEnv) (env : GraphEnv) (g : SimpleG) (tool : String) (ord : List String → Nat)
+    (s : CliSpec) (hs : s ∈ cliSpecs) (hstd : s.standard = true) (argv : List String)
+    (hf : inFragment s argv = true)
+    (hpath : ∀ b, parseArgs s argv = .ok b → ∃ t, selectTemplate (namespaceOf s b) s.templates = .ok t ∧
+      (instantiate (namespaceOf s b) t = .error .cliError ∨
+        ∃ c, instantiate (namespaceOf s b) t = .ok c ∧ (evalCallX re env g (namespaceOf s b) c).isSome = true)) :
+    EndsWell (cliOutcomeX re env g tool ord s argv) := by
+  have h := (List.all_eq_true.1 C17.standard_tables_comparable) s (List.mem_filter.2 ⟨hs, hstd⟩)
+  simp only [Bool.and_eq_true, Bool.not_eq_true'] at h
+  obtain ⟨⟨hfrag, hof⟩, hni⟩ := h
+  have hsx : s.supportedX = true := by unfold CliSpec.supportedX CliSpec.supported; simp [hstd]
+  have hmap : ∀ ns, s.templates.map (fixTemplate ord ns) = s.templates := by
+    intro ns
+    conv => rhs; rw [← List.map_id s.templates]
+    exact List.map_congr_left (fun t ht => fixTemplate_id ord ns t ((List.all_eq_true.1 hof) t ht))
+  unfold cliOutcomeX
+  simp only [hsx, hni, Bool.not_true, Bool.false_eq_true, if_false]
+  split
+  · exact Or.inr (Or.inr rfl)
+  · rw [parseX_refines s hstd hfrag argv hf]
+    rcases parseArgs_total s hstd argv hf with ⟨b, hb⟩ | hb
+    · rw [hb]
+      simp only [liftE]
+      obtain ⟨t, hsel, hins⟩ := hpath b hb
+      unfold runCallX
+      dsimp only
+      rw [hmap, hsel]
+      dsimp only
+      rcases hins with hi | ⟨c, hi, hsome⟩
+      · rw [hi]; exact Or.inr (Or.inr rfl)
+      · rw [hi]
+        dsimp only
+        obtain ⟨bt, hbt⟩ := Option.isSome_iff_exists.1 hsome
+        rw [hbt]
+        dsimp only
+        rcases mapped_x_steps_clean re env g _ c bt hbt with h1 | h1 <;> rw [h1]
+        · exact Or.inr (Or.inl rfl)
+        · exact Or.inr (Or.inr rfl)
+    · rw [hb]
+      simp only [liftE, liftErr]
+      exact Or.inr (Or.inr rfl)
+
+theorem dispatchTemplate_select (s : CliSpec) (argv : List String) (b : Ns) (t : CallTemplate) (ns : Ns)
+    (hb : parseArgs s argv = .ok b) (hd : dispatchTemplate s argv = .ok (t, ns)) :
+    selectTemplate (namespaceOf s b) s.templates = .ok t := by
+  unfold dispatchTemplate at hd
+  split at hd
+  · cases hd
+  · rw [hb] at hd
+    dsimp only at hd
+    split at hd
+    · cases hd
+    · rename_i t' hsel
+      cases hd
+      exact hsel
+
+/-- the sub-commands with graph arguments of `end_to_end_graph`, on the extended interpreter -/
+theorem graph_endsWell (re : RandEnv) (env : GraphEnv) (g : SimpleG) (tool : String) (ord : List String → Nat)
+    (s : CliSpec) (hs : s ∈ cliSpecs) (hc : graphCovered s = true) (argv : List String)
+    (hf : inFragment s argv = true) : EndsWell (cliOutcomeX re env g tool ord s argv) := by
+  have hc' := hc
+  unfold graphCovered at hc'
+  simp only [Bool.and_eq_true] at hc'
+  obtain ⟨hstd, hall⟩ := hc'
+  refine standard_endsWell re env g tool ord s hs hstd argv hf (fun b hb => ?_)
+  obtain ⟨t, htm, hd, hor⟩ := og_path s hstd hs argv b hb env
+  refine ⟨t, dispatchTemplate_select s argv b t _ hb hd, ?_⟩
+  rcases hor ((List.all_eq_true.1 hall) t htm) with ⟨_, hi⟩ | ⟨c, hi, hsome⟩
+  · exact Or.inl hi
+  · refine Or.inr ⟨c, hi, evalCallX_isSome_of_any re env g _ c ?_⟩
+    unfold evalCallAny
+    obtain ⟨bt, hbt⟩ := Option.isSome_iff_exists.1 hsome
+    rw [hbt]; rfl
+
+/-- the numeric sub-commands of `end_to_end`, on the extended interpreter -/
+theorem numeric_endsWell (re : RandEnv) (env : GraphEnv) (g : SimpleG) (tool : String) (ord : List String → Nat)
+    (h : HelperSpec) (s : CliSpec) (hspec : specOf h = some s) (hc : outcomeCovered s = true) (argv : List String)
+    (hf : inFragment s argv = true) : EndsWell (cliOutcomeX re env g tool ord s argv) := by
+  have hs := specOf_mem h s hspec
+  have hstd : s.standard = true := by
+    have : ∀ s' ∈ cliSpecs, outcomeCovered s' = true → s'.standard = true := by decide +kernel
+    exact this s hs hc
+  have hsup : s.supported = true := by simpa using dtot_supported s hstd
+  refine standard_endsWell re env g tool ord s hs hstd argv hf (fun b hb => ?_)
+  have he := (end_to_end h s hspec hc argv hf).1
+  unfold cliOutcome dispatch at he
+  rw [hspec] at he
+  unfold dispatchSpec dispatchTemplate at he
+  simp only [hsup, Bool.not_true, Bool.false_eq_true, if_false, hb] at he
+  cases hsel : selectTemplate (namespaceOf s b) s.templates with
+  | error e =>
+    rw [hsel] at he
+    obtain ⟨w, rfl⟩ := selectTemplate_error _ _ _ hsel
+    rcases he with he | he <;> simp at he
+  | ok t =>
+    rw [hsel] at he
+    dsimp only at he
+    refine ⟨t, rfl, ?_⟩
+    cases hi : instantiate (namespaceOf s b) t with
+    | error e =>
+      rw [hi] at he
+      cases e with
+      | cliError => exact Or.inl rfl
+      | crash x => rcases he with he | he <;> simp at he
+      | unsupported x => rcases he with he | he <;> simp at he
+    | ok c =>
+      rw [hi] at he
+      dsimp only at he
+      refine Or.inr ⟨c, rfl, evalCallX_isSome_of_any re env g _ c ?_⟩
+      cases hev : evalCall c with
+      | none => rw [hev] at he; rcases he with he | he <;> simp at he
+      | some r =>
+        rw [ctext_evalCall_of_F g c] at hev
+        unfold evalCallAny
+        cases hg : evalCallG env (namespaceOf s b) c with
+        | some bt => rfl
+        | none =>
+          cases hF : evalCallF g c with
+          | none => rw [hF] at hev; simp at hev
+          | some r' => rfl
+
+/-! ### `stone`, the `--sparse` path included -/
+
+/-- the path `SparseStoneFormula(D, bipartite_random_left_regular(D.order(), s, sparse))` as the proof reads it: taken
+only when `args.sparse is not None`; `D` a DAG argument that is always bound, `s` a typed positional, `sparse` a typed
+option whose default is `None` -/
+def sparseShape (s : CliSpec) (t : CallTemplate) : Bool :=
+  t.raises == "" && t.fn == "SparseStoneFormula" &&
+  (match t.pos with | [.arg "D", .opaque _ _] => true | _ => false) &&
+  (match t.kw with | [("formula_class", .name _)] => true | _ => false) &&
+  (match t.guard with | .and (.and (.hasattr "sparse") (.isNotNone (.arg "sparse"))) _ => true | _ => false) &&
+  og_graphBound s "dag" "D" && dtot_intBound s "s" && dtot_intOrNone s "sparse"
+
+theorem stone_paths_x : ∀ s ∈ cliSpecs, s.name = "stone" →
+    s.standard = true ∧ ∀ t ∈ s.templates, pathCovered s t = true ∨ sparseShape s t = true := by decide +kernel
+
+/-- T-C18.X3 `stone`, EVERY path (`--sparse d` with `d ≤ s` included: the graph — or the ValueError — of
+`bipartite_random_left_regular` comes from `RandEnv.lreg`): every token list of the fragment ends in a formula or a
+command-line error -/
+theorem end_to_end_stone_x (re : RandEnv) (env : GraphEnv) (g : SimpleG) (tool : String) (ord : List String → Nat)
+    (s : CliSpec) (hs : s ∈ cliSpecs) (hname : s.name = "stone") (argv : List String)
+    (hf : inFragment s argv = true) : EndsWell (cliOutcomeX re env g tool ord s argv) := by
+  obtain ⟨hstd, hall⟩ := stone_paths_x s hs hname
+  refine standard_endsWell re env g tool ord s hs hstd argv hf (fun b hb => ?_)
+  obtain ⟨t, htm, hd, hor⟩ := og_path s hstd hs argv b hb env
+  have hsel := dispatchTemplate_select s argv b t _ hb hd
+  refine ⟨t, hsel, ?_⟩
+  rcases hall t htm with hcov | hsp
+  · rcases hor hcov with ⟨_, hi⟩ | ⟨c, hi, hsome⟩
+    · exact Or.inl hi
+    · refine Or.inr ⟨c, hi, evalCallX_isSome_of_any re env g _ c ?_⟩
+      unfold evalCallAny
+      obtain ⟨bt, hbt⟩ := Option.isSome_iff_exists.1 hsome
+      rw [hbt]; rfl
+  · unfold sparseShape at hsp
+    simp only [Bool.and_eq_true, beq_iff_eq] at hsp
+    obtain ⟨⟨⟨⟨⟨⟨⟨hr, hfn⟩, hpos⟩, hkw⟩, hgd⟩, hD⟩, hS⟩, hSp⟩ := hsp
+    have hg := og_select_guard _ _ _ hsel
+    obtain ⟨toks, hDv⟩ := og_graphBound_val s hstd argv b hb "dag" "D" hD
+    obtain ⟨i, hSv⟩ := dtot_intBound_val s hstd argv b hb "s" hS
+    obtain ⟨v, hv, hvor⟩ := dtot_intOrNone_val s hstd argv b hb "sparse" hSp
+    obtain ⟨guard, raises, fn, pos, kw, eff⟩ := t
+    dsimp only at hr hfn hpos hkw hgd hg
+    subst hr hfn
+    -- the guard says `args.sparse is not None`
+    have hint : ∃ j, v = .int j := by
+      rcases hvor with rfl | h
+      · exfalso
+        split at hgd
+        · rename_i X
+          simp [evalGuard, evalE, hv, truthy, isNoneV] at hg
+        · cases hgd
+      · exact h
+    obtain ⟨j, rfl⟩ := hint
+    split at hpos
+    · rename_i src ds
+      split at hkw
+      · rename_i nm
+        right
+        refine ⟨⟨"SparseStoneFormula", [.graph "dag" toks, .opaque src], [("formula_class", .param nm)]⟩, ?_, ?_⟩
+        · simp [instantiate, evalPos, evalKw, evalE, hDv]
+        · apply evalCallX_isSome_of_R
+          simp [evalCallR, hSv, hv]
+      · cases hkw
+    · cases hpos
+
+/-! ### `vdw`: a `nargs='*'` positional -/
+
+def vdwShape (s : CliSpec) (t : CallTemplate) : Bool :=
+  t.raises == "" && t.fn == "VanDerWaerden" &&
+  (match t.pos with | [.arg "N", .arg "k1", .arg "k2", .star (.arg "ks")] => true | _ => false) &&
+  (match t.kw with | [("formula_class", .name _)] => true | _ => false) &&
+  dtot_intBound s "N" && dtot_intBound s "k1" && dtot_intBound s "k2" && dtot_starDest s "ks"
+
+theorem vdw_paths_x : ∀ s ∈ cliSpecs, s.name = "vdw" →
+    s.standard = true ∧ ∀ t ∈ s.templates, vdwShape s t = true := by decide +kernel
+
+theorem allInts_map_int (l : List Int) : allInts (l.map Val.int) = some l := by
+  induction l with
+  | nil => rfl
+  | cons a r ih => simp [allInts, ih]
+
+/-- T-C18.X4 `vdw N k1 k2 [k3 …]`: every token list of the fragment ends in a formula or a command-line error -/
+theorem end_to_end_vdw_x (re : RandEnv) (env : GraphEnv) (g : SimpleG) (tool : String) (ord : List String → Nat)
+    (s : CliSpec) (hs : s ∈ cliSpecs) (hname : s.name = "vdw") (argv : List String)
+    (hf : inFragment s argv = true) : EndsWell (cliOutcomeX re env g tool ord s argv) := by
+  obtain ⟨hstd, hall⟩ := vdw_paths_x s hs hname
+  refine standard_endsWell re env g tool ord s hs hstd argv hf (fun b hb => ?_)
+  obtain ⟨t, htm, hd, _hor⟩ := og_path s hstd hs argv b hb env
+  have hsel := dispatchTemplate_select s argv b t _ hb hd
+  refine ⟨t, hsel, ?_⟩
+  have hsp := hall t htm
+  unfold vdwShape at hsp
+  simp only [Bool.and_eq_true, beq_iff_eq] at hsp
+  obtain ⟨⟨⟨⟨⟨⟨⟨hr, hfn⟩, hpos⟩, hkw⟩, hN⟩, hk1⟩, hk2⟩, hks⟩ := hsp
+  obtain ⟨n, hNv⟩ := dtot_intBound_val s hstd argv b hb "N" hN
+  obtain ⟨k1, hk1v⟩ := dtot_intBound_val s hstd argv b hb "k1" hk1
+  obtain ⟨k2, hk2v⟩ := dtot_intBound_val s hstd argv b hb "k2" hk2
+  obtain ⟨l, hlv⟩ := dtot_starDest_val s hstd argv b hb "ks" hks
+  obtain ⟨guard, raises, fn, pos, kw, eff⟩ := t
+  dsimp only at hr hfn hpos hkw
+  subst hr hfn
+  split at hpos
+  · split at hkw
+    · rename_i nm
+      right
+      refine ⟨⟨"VanDerWaerden", .int n :: .int k1 :: .int k2 :: l.map Val.int, [("formula_class", .param nm)]⟩, ?_, ?_⟩
+      · simp [instantiate, evalPos, evalKw, evalE, hNv, hk1v, hk2v, hlv]
+      · apply evalCallX_isSome_of_any
+        have : allInts (Val.int n :: Val.int k1 :: Val.int k2 :: l.map Val.int) = some (n :: k1 :: k2 :: l) := by
+          simp [allInts, allInts_map_int]
+        simp [evalCallAny, evalCallG, gHandlers, List.lookup, evalCallF, this]
+    · cases hkw
+  · cases hpos
+
+/-! ### the theorem -/
+
+/-- the formula sub-commands of `cli_never_escapes_all` -/
+def coveredAll (s : CliSpec) : Bool :=
+  s.kind == "formula" && s.supportedX &&
+  (inlineCovered s || outcomeCovered s || graphCovered s || !(s.standard || s.inline) || s.name == "stone" ||
+   s.name == "vdw")
+
+theorem covered_formula_commands :
+    (cliSpecs.filter coveredAll).map (·.name) =
+      ["and", "bphp", "cliquecoloring", "count", "cpls", "domset", "ec", "false", "iso", "kclique", "kcliquebin",
+       "kcolor", "matching", "op", "or", "parity", "peb", "php", "pitfall", "ptn", "ram", "ramlb", "rphp", "stone",
+       "subgraph", "subsetcard", "tiling", "true", "tseitin", "vdw"] := by decide +kernel
+
+/-- the formula sub-commands outside `cli_never_escapes_all` (see the head of this file for the reasons) -/
+theorem excluded_formula_commands :
+    (cliSpecs.filter (fun s => s.kind == "formula" && !coveredAll s)).map (·.name) =
+      ["dimacs", "randkcnf", "randkxor"] := by decide +kernel
+
+/-- the token lists the theorem speaks about: ALL of them for the inline helpers and for `op php subsetcard tseitin`;
+those of the argparse fragment (exact option strings) for a sub-command with standard options -/
+def tokensCovered (s : CliSpec) (argv : List String) : Bool := !s.standard || inFragment s argv
+
+/-- T-C18.ALL.  For every tool, every covered formula sub-command (30 of 33: `covered_formula_commands`), every covered
+token list, every graph environment, every outcome of the helper's random choices and every order of a graph file: the
+run ends in the help exit, in a formula, or in a command-line error — no exception escapes, `cli()` reports no internal
+bug, and the model always answers. -/
+theorem cli_never_escapes_all (re : RandEnv) (env : GraphEnv) (g : SimpleG) (tool : String)
+    (ord : List String → Nat) (h : HelperSpec) (s : CliSpec) (hspec : specOf h = some s)
+    (hc : coveredAll s = true) (argv : List String) (hf : tokensCovered s argv = true) :
+    cliOutcomeX re env g tool ord s argv = some .help ∨
+    cliOutcomeX re env g tool ord s argv = some (.done .ok) ∨
+    cliOutcomeX re env g tool ord s argv = some (.done .cliError) := by
+  have hs := specOf_mem h s hspec
+  unfold coveredAll at hc
+  simp only [Bool.and_eq_true, Bool.or_eq_true, beq_iff_eq, Bool.not_eq_true'] at hc
+  obtain ⟨⟨hkind, hsx⟩, hcls⟩ := hc
+  have hfr : s.standard = true → inFragment s argv = true := by
+    intro hstd
+    unfold tokensCovered at hf
+    simpa [hstd] using hf
+  rcases hcls with ((((hi | hn) | hg) | hsp) | hst) | hvd
+  · exact end_to_end_inline_all_tokens re env g tool ord s hs hi argv
+  · have hstd : s.standard = true := by
+      have : ∀ s' ∈ cliSpecs, outcomeCovered s' = true → s'.standard = true := by decide +kernel
+      exact this s hs hn
+    exact numeric_endsWell re env g tool ord h s hspec hn argv (hfr hstd)
+  · have hstd : s.standard = true := by
+      unfold graphCovered at hg
+      simp only [Bool.and_eq_true] at hg
+      exact hg.1
+    exact graph_endsWell re env g tool ord s hs hg argv (hfr hstd)
+  · simp only [Bool.or_eq_false_iff] at hsp
+    exact end_to_end_special_all_tokens re env g tool ord s hs hkind hsx hsp.1 hsp.2 argv
+  · exact end_to_end_stone_x re env g tool ord s hs hst argv (hfr (stone_paths_x s hs hst).1)
+  · exact end_to_end_vdw_x re env g tool ord s hs hvd argv (hfr (vdw_paths_x s hs hvd).1)
+
+/-- … in particular -/
+theorem cli_never_escapes_all' (re : RandEnv) (env : GraphEnv) (g : SimpleG) (tool : String)
+    (ord : List String → Nat) (h : HelperSpec) (s : CliSpec) (hspec : specOf h = some s)
+    (hc : coveredAll s = true) (argv : List String) (hf : tokensCovered s argv = true) :
+    cliOutcomeX re env g tool ord s argv ≠ none ∧
+    cliOutcomeX re env g tool ord s argv ≠ some (.done .internalBug) ∧
+    ∀ e, cliOutcomeX re env g tool ord s argv ≠ some (.done (.escaped e)) := by
+  rcases cli_never_escapes_all re env g tool ord h s hspec hc argv hf with h1 | h1 | h1 <;> rw [h1] <;> simp
+
+/-- the hypotheses are satisfiable: a standard sub-command on a line of the fragment, a composed one on any line -/
+example : ∃ h s, specOf h = some s ∧ coveredAll s = true ∧ tokensCovered s ["3", "complete", "4"] = true :=
+  ⟨(helpers.find? (fun h => h.name == "kcolor")).get (by decide +kernel),
+   (cliSpecs.find? (fun s => s.name == "kcolor")).get (by decide +kernel), by decide +kernel⟩
+example : ∃ h s, specOf h = some s ∧ coveredAll s = true ∧ tokensCovered s ["--he", "-x=3", "--", "-h"] = true :=
+  ⟨(helpers.find? (fun h => h.name == "tseitin")).get (by decide +kernel),
+   (cliSpecs.find? (fun s => s.name == "tseitin")).get (by decide +kernel), by decide +kernel⟩
+
 
 end Cnfgen.C18
